@@ -111,7 +111,7 @@ def nat? (s : String) : Option Nat := s.toNat?
 def bool? (s : String) : Option Bool := if s == "0" then some false else if s == "1" then some true else none
 
 def optsOf (nnop okind : Nat) (odata : Bytes) : Option Bytes :=
-  if okind ≥ 256 ∨ okind = 1 then none
+  if okind ≥ 256 ∨ okind = 1 ∨ nnop > 64 ∨ odata.length > 64 then none
   else
     let o := optBytes nnop okind odata
     if o.length > 40 then none else some o
@@ -131,6 +131,12 @@ def stepCksum (st : St) (ws : List String) : St × String :=
     match nat? c with
     | some c => if c < W32 then (st, "ok " ++ toString (fold c)) else (st, "bad-op")
     | none => (st, "bad-op")
+  | ["cksum", "foldsweep", lo, hi] =>
+    -- the implementation side compares the real FoldChecksum with the closed form on [lo, hi);
+    -- on the model side the closed form holds for every c < 2^32 by theorem C08.fold_spec.
+    match nat? lo, nat? hi with
+    | some lo, some hi => if lo ≤ hi ∧ hi ≤ W32 then (st, "ok") else (st, "bad-op")
+    | _, _ => (st, "bad-op")
   | ["cksum", "sum", d, c] =>
     match bytesSpec d, nat? c with
     | some d, some c => if c < W32 then (st, "ok " ++ toString (compute d c)) else (st, "bad-op")
@@ -212,7 +218,7 @@ def stepCksum (st : St) (ws : List String) : St × String :=
             match nat? i with
             | some i => if i < 8 * st.bytes.length then some (flipBit st.bytes i) else none
             | none => none) with
-    | some seg => (st, pverify st.proto st.net [10, 0, 0, 1] [10, 0, 0, 2] seg)
+    | some seg => if seg.length > 60000 then (st, "bad-op") else (st, pverify st.proto st.net [10, 0, 0, 1] [10, 0, 0, 2] seg)
     | none => (st, "bad-op")
   | _ => (st, "bad-op")
 
